@@ -64,6 +64,10 @@ def run_mutants(prop: str, run, tier: str, mutants: list, scratch_name: str | No
     saved = (evidence.EVID, evidence.REPLAYS)
     evidence.EVID, evidence.REPLAYS = d / "evidence", d / "replays"
     results = []
+    import os
+    only = os.environ.get("VERIF_MUTANTS")
+    if only:
+        mutants = [m for m in mutants if any(t.strip() and t.strip() in m[0] for t in only.split(","))]
     try:
         for mu in mutants:
             name, modname, old, new = mu[:4]
